@@ -14,6 +14,7 @@ from . import c09
 
 ID = "C05"
 FD = _d.FieldDescriptor
+HASH_SHARDS = [0, 1, 2]      # parameter ORDER is part of the property: the generator must not take it from a set
 
 PROFILE = grammar.profile(
     sig_variants=True, p_custom=1.0, p_signature=1.0, p_reserved_field=0.3, p_foreign_request=0.4, p_create=0.8,
